@@ -1,8 +1,66 @@
-import PybtexModel.Drv.Json
+import PybtexModel.Drv.DbJson
 open Lean
 namespace Pybtex.Drv.C14
+open Pybtex.Drv.DbJson
+
+def optStr : Option Str → Json
+  | some v => strToJson v
+  | none => Json.null
+
+def bstJ : BstValue → Json
+  | .str v => strToJson v
+  | .missing _ => Json.null
+
+def exJ : Except Str Str → Json
+  | .ok v => strToJson v
+  | .error _ => Json.null
+
+def rowJ (key : Str) (vals : List Json) : Json := arr [strToJson key, arr vals]
+
+/-- `findfield`: database graph + queried names → what each observation point yields for every
+(entry, name): the entry API with and without `bib_data`, the BST field variables, the template
+`field` node of the Python engine (model), and the reference lookup (spec). -/
+def findfield (j : Json) : Except String Json := do
+  let raw ← parseFile j
+  let names ← getStrList j "names"
+  let file := toModelFile raw
+  let cits := raw.map (·.key)
+  let sdb := Spec.readAll (toSpecFile raw)
+  let api : Json := match BibData.readFile none file with
+    | none => Json.str "KeyError"
+    | some (db, _) =>
+      match CIDict.items db.entries with
+      | none => Json.str "KeyError"
+      | some its => arr (its.map fun p => rowJ p.2.key (names.map fun n => optStr (p.2.findField n (some db))))
+  let apiNoDb : Json := match BibData.readFile none file with
+    | none => Json.str "KeyError"
+    | some (db, _) =>
+      match CIDict.items db.entries with
+      | none => Json.str "KeyError"
+      | some its => arr (its.map fun p => rowJ p.2.key (names.map fun n => optStr (p.2.findField n none)))
+  let bst : Json := match BibData.readFile (some cits) (file.map fun p => (p.1, p.2.personsAsFields)) with
+    | none => Json.str "KeyError"
+    | some (db, _) =>
+      let a := db.addExtraCitations cits 2
+      let b := db.removeMissing a.1
+      arr (b.1.map fun c => match db.entries.getItem c with
+        | none => Json.str "KeyError"
+        | some e => rowJ c (names.map (fun n => bstJ (bstFieldValue db e n)) ++ [bstJ (bstCrossrefValue db e)]))
+  let py : Json := match BibData.readFile (some cits) file with
+    | none => Json.str "KeyError"
+    | some (db, _) =>
+      let a := db.addExtraCitations cits 2
+      let b := db.removeMissingPy a.1
+      match db.lookupAll b.1 with
+      | none => Json.str "KeyError"
+      | some es => arr (es.map fun e => rowJ e.key (names.map fun n => exJ (pythonEngineField db e n)))
+  let spec : Json := arr (sdb.map fun e => rowJ e.key (names.map fun n => optStr (Spec.lookup sdb e n)))
+  let specOwn : Json := arr (sdb.map fun e => rowJ e.key (names.map fun n => optStr (e.own n)))
+  let specParent : Json := arr (sdb.map fun e => rowJ e.key [optStr ((Spec.parent sdb e).map (·.key))])
+  pure (obj [("out", obj [("api", api), ("api_nodb", apiNoDb), ("bst", bst), ("py", py)]),
+             ("spec", obj [("lookup", spec), ("own", specOwn), ("parent", specParent)])])
 
 /-- driver ops of this property: (op name, handler) -/
-def handlers : List (String × (Json → Except String Json)) := []
+def handlers : List (String × (Json → Except String Json)) := [("findfield", findfield)]
 
 end Pybtex.Drv.C14
